@@ -1,8 +1,11 @@
-(** C17 — operator chains of ANY length run by Pipeline::execute (push_through / finalize_all):
-    when no operator before the last one is a LIMIT, the concatenated output over any chunking is
-    the list specification of the chain (operator after operator on the whole input).  Inner sorts
-    (pipeline breakers whose output flows on in finalize_all), inner filters, projections and
-    DISTINCTs, and any last operator — including a LIMIT that stops the run early. *)
+(** C17 — operator chains of ANY length and shape (filters, projections, DISTINCTs, sorts, LIMITs
+    anywhere) run by the current chain driver (push_through / finalize_all, /repo b341ff4):
+
+    1. ignoring the "stop" answers (what a parallel worker does), the concatenated output over any
+       chunking is the list specification of the chain, operator after operator on the whole input;
+    2. stopping at the first "stop" (what Pipeline::execute does) gives the very same chunks, because a
+       "stop" means that some LIMIT in the chain is exhausted, and an exhausted LIMIT lets nothing
+       through, neither later chunks nor what the operators before it emit when they are finalized. *)
 From Coq Require Import List Arith Bool Lia.
 From GV Require Import Par.Merge Par.Push Par.ProofsPush.
 Import ListNotations.
@@ -14,142 +17,276 @@ Section ChainProofs.
   Notation opk := (@opk R K).
   Notation opst := (@opst R K).
   Notation push := (push keq).
-  Notation drive := (drive keq).
   Notation spec := (spec keq).
   Notation outs1 := (outs1 keq).
   Notation drive_chain := (drive_chain keq).
   Notation push_through := (push_through keq).
+  Notation push_all := (push_all keq).
   Notation finalize_all := (finalize_all keq).
   Notation run_chain := (run_chain keq).
   Notation chain_spec := (chain_spec keq).
 
-  Notation is_limit := (@is_limit R K).
-  Notation no_inner_limit := (@no_inner_limit R K).
+  (** *** one operator, every chunk pushed whatever it answers *)
+  Fixpoint st_after (k : opk) (s : opst) (cs : list (list R)) : opst :=
+    match cs with
+    | [] => s
+    | c :: r => st_after k (fst (fst (push k s c))) r
+    end.
 
-  Lemma not_limit_cases : forall k, is_limit k = false -> streaming k = true \/ exists cmp, k = OSort cmp.
-  Proof. intros k H. destruct k; try discriminate; eauto. Qed.
-
-  (** *** a single operator as a chain *)
-  Lemma drive_chain_single : forall (k : opk) cs s,
-    drive_chain [k] [s] cs = ([fst (drive k s cs)], snd (drive k s cs)).
+  Lemma push_out_keep : forall (k : opk) s c, exists x, snd (fst (push k s c)) = keep x.
   Proof.
-    intros k. induction cs as [|c r IH]; intro s; [reflexivity|].
-    cbn [Push.drive_chain Push.push_through Push.drive hd_st].
-    destruct (push k s c) as [[s' out] cont]. destruct cont.
-    - rewrite IH. destruct (drive k s' r) as [s'' o2]. reflexivity.
+    intros k s c. destruct k as [p|n|key|cmp|f]; cbn [Push.push].
+    - eexists. reflexivity.
+    - destruct (n <=? s_passed s); [exists []; reflexivity|].
+      destruct (length c <=? n - s_passed s); eexists; reflexivity.
+    - destruct (fresh keq key (s_seen s) c). eexists. reflexivity.
+    - exists []. reflexivity.
+    - eexists. reflexivity.
+  Qed.
+
+  Lemma outs_filter : forall (p : R -> bool) (cs : list (list R)) (s : opst), concat (outs1 (OFilter p) s cs) = filter p (concat cs).
+  Proof.
+    intros p. induction cs as [|c r IH]; intro s; cbn [ProofsPush.outs1 Push.push concat]; [reflexivity|].
+    rewrite concat_app, concat_keep, filter_app, IH. reflexivity.
+  Qed.
+  Lemma outs_project : forall (f : R -> R) (cs : list (list R)) (s : opst), concat (outs1 (OProject f) s cs) = map f (concat cs).
+  Proof.
+    intros f. induction cs as [|c r IH]; intro s; cbn [ProofsPush.outs1 Push.push concat]; [reflexivity|].
+    rewrite concat_app, concat_keep, map_app, IH. reflexivity.
+  Qed.
+  Lemma outs_distinct : forall (key : R -> K) (cs : list (list R)) (s : opst),
+    concat (outs1 (ODistinct key) s cs) = dedup keq key (s_seen s) (concat cs).
+  Proof.
+    intros key. induction cs as [|c r IH]; intro s; cbn [ProofsPush.outs1 Push.push concat]; [reflexivity|].
+    pose proof (fresh_dedup keq key c (s_seen s)) as F.
+    destruct (fresh keq key (s_seen s) c) as [seen' o] eqn:E. cbn [snd] in F.
+    rewrite concat_app, concat_keep, IH. cbn [s_seen]. rewrite (dedup_app keq), E. cbn [fst]. rewrite F. reflexivity.
+  Qed.
+  Lemma outs_limit : forall (n : nat) (cs : list (list R)) (s : opst),
+    concat (outs1 (OLimit n) s cs) = firstn (n - s_passed s) (concat cs).
+  Proof.
+    intros n. induction cs as [|c r IH]; intro s; cbn [ProofsPush.outs1 Push.push concat].
+    - rewrite firstn_nil. reflexivity.
+    - destruct (Nat.leb_spec n (s_passed s)) as [Hle|Hlt].
+      + cbn [app]. rewrite IH. replace (n - s_passed s) with 0 by lia. reflexivity.
+      + destruct (Nat.leb_spec (length c) (n - s_passed s)) as [Hc|Hc].
+        * rewrite concat_app, concat_keep, IH. cbn [s_passed]. rewrite firstn_app.
+          rewrite (@firstn_all2 _ (n - s_passed s) c) by lia. f_equal. f_equal. lia.
+        * rewrite concat_app, concat_keep, IH. cbn [s_passed].
+          replace (n - (s_passed s + (n - s_passed s))) with 0 by lia. cbn [firstn]. rewrite app_nil_r.
+          rewrite firstn_app. replace (n - s_passed s - length c) with 0 by lia. cbn [firstn]. rewrite app_nil_r.
+          reflexivity.
+  Qed.
+  Lemma outs_sort : forall (cmp : R -> R -> comparison) (cs : list (list R)) (s : opst),
+    outs1 (OSort cmp) s cs = [] /\ s_buf (st_after (OSort cmp) s cs) = s_buf s ++ concat cs.
+  Proof.
+    intros cmp. induction cs as [|c r IH]; intro s; cbn [ProofsPush.outs1 st_after Push.push concat fst snd].
+    - rewrite app_nil_r. auto.
+    - destruct (IH {| s_passed := s_passed s; s_seen := s_seen s; s_buf := s_buf s ++ c |}) as [I1 I2].
+      split; [exact I1|]. rewrite I2. cbn [s_buf]. rewrite app_assoc. reflexivity.
+  Qed.
+
+  (** every chunk pushed, then finalize: the operator's specification *)
+  Lemma total_op : forall (k : opk) cs,
+    concat (outs1 k st0 cs ++ finish k (st_after k st0 cs)) = spec k (concat cs).
+  Proof.
+    intros k cs. rewrite concat_app. destruct k as [p|n|key|cmp|f]; cbn [Push.finish Push.spec concat].
+    - rewrite app_nil_r. apply outs_filter.
+    - rewrite app_nil_r, outs_limit. cbn. f_equal. lia.
+    - rewrite app_nil_r. apply outs_distinct.
+    - destruct (outs_sort cmp cs st0) as [E1 E2]. rewrite E1, E2. cbn [concat app st0 s_buf].
+      apply chunks_of_concat. lia.
+    - rewrite app_nil_r. apply outs_project.
+  Qed.
+
+  (** *** chains, every chunk pushed whatever the chain answers: [push_all] + [finalize_all] *)
+  Definition total_run (ks : list opk) (ss : list opst) (cs : list (list R)) : list (list R) :=
+    snd (push_all ks ss cs) ++ finalize_all ks (fst (push_all ks ss cs)).
+
+  Lemma push_all_app : forall (ks : list opk) a b ss,
+    push_all ks ss (a ++ b) =
+    (fst (push_all ks (fst (push_all ks ss a)) b), snd (push_all ks ss a) ++ snd (push_all ks (fst (push_all ks ss a)) b)).
+  Proof.
+    intros ks. induction a as [|c r IH]; intros b ss; cbn [app Push.push_all].
+    - cbn [fst snd app]. destruct (push_all ks ss b). reflexivity.
+    - destruct (push_through ks ss c) as [[ss' o] cont]. rewrite IH.
+      destruct (push_all ks ss' r) as [s1 o1]. cbn [fst snd].
+      destruct (push_all ks s1 b) as [s2 o2]. cbn [fst snd]. rewrite app_assoc. reflexivity.
+  Qed.
+
+  Lemma push_all_nil_chain : forall cs (ss : list opst), concat (snd (push_all [] ss cs)) = concat cs.
+  Proof.
+    induction cs as [|c r IH]; intro ss; cbn [Push.push_all Push.push_through]; [reflexivity|].
+    specialize (IH []). destruct (push_all [] [] r) as [s o]. cbn [snd concat] in *.
+    rewrite concat_app, concat_keep, IH. reflexivity.
+  Qed.
+
+  Lemma push_all_single : forall (k : opk) cs s,
+    push_all [k] [s] cs = ([st_after k s cs], outs1 k s cs).
+  Proof.
+    intros k. induction cs as [|c r IH]; intro s; cbn [Push.push_all Push.push_through ProofsPush.outs1 st_after hd_st]; [reflexivity|].
+    destruct (push k s c) as [[s' out] cont]. cbn [fst]. rewrite IH. reflexivity.
+  Qed.
+
+  Lemma push_all_cons : forall (k k2 : opk) (ks : list opk) cs s srest,
+    push_all (k :: k2 :: ks) (s :: srest) cs =
+    (st_after k s cs :: fst (push_all (k2 :: ks) srest (outs1 k s cs)), snd (push_all (k2 :: ks) srest (outs1 k s cs))).
+  Proof.
+    intros k k2 ks. induction cs as [|c r IH]; intros s srest.
     - reflexivity.
+    - cbn [Push.push_all ProofsPush.outs1 st_after].
+      change (Push.push_through keq (k :: k2 :: ks) (s :: srest) c) with
+        (let '(s', out, cont) := push k (hd_st (s :: srest)) c in
+         match out with
+         | [] => (s' :: tl (s :: srest), [], cont)
+         | _ :: _ => let '(ss', o, c') := push_through (k2 :: ks) (tl (s :: srest)) (concat out) in (s' :: ss', o, cont && c')
+         end).
+      cbn [hd_st tl]. destruct (push_out_keep k s c) as [x Ex].
+      destruct (push k s c) as [[s' out] cont]. cbn [fst snd] in *. subst out.
+      destruct x as [|x0 xt]; cbn [keep app].
+      + rewrite IH. reflexivity.
+      + cbn [concat]. rewrite app_nil_r. cbn [Push.push_all].
+        destruct (push_through (k2 :: ks) srest (x0 :: xt)) as [[ss' o] c'].
+        rewrite IH. destruct (push_all (k2 :: ks) ss' (outs1 k s' r)) as [s2 o2]. reflexivity.
   Qed.
 
-  Lemma run_chain_single : forall (k : opk) cs, run_chain [k] cs = run1 keq k cs.
+  Theorem total_run_spec : forall (ks : list opk) cs,
+    concat (total_run ks (init_chain ks) cs) = chain_spec ks (concat cs).
   Proof.
-    intros k cs. unfold Push.run_chain, run1. cbn [init_chain map]. rewrite drive_chain_single.
-    destruct (drive k st0 cs) as [s o]. reflexivity.
-  Qed.
-
-  Lemma run_chain_nil : forall cs : list (list R), concat (run_chain [] cs) = concat cs.
-  Proof.
-    intro cs. unfold Push.run_chain. cbn [init_chain map].
-    assert (G : forall ss, drive_chain [] ss cs = ([], concat (map (@keep R) cs)) \/ cs = []).
-    { induction cs as [|c r IH]; intro ss; [right; reflexivity|]. left.
-      cbn [Push.drive_chain Push.push_through map concat].
-      destruct (IH []) as [E|E]; [rewrite E; reflexivity|subst r; cbn; rewrite app_nil_r; reflexivity]. }
-    destruct (G []) as [E|E].
-    - rewrite E. cbn [Push.finalize_all]. rewrite app_nil_r.
-      clear. induction cs as [|c r IH]; [reflexivity|]. cbn [map concat]. rewrite concat_app, concat_keep, IH. reflexivity.
-    - subst cs. reflexivity.
-  Qed.
-
-  (** *** a streaming operator in front of a non-empty rest *)
-  Lemma drive_chain_stream : forall (k1 k2 : opk) (ks : list opk), streaming k1 = true ->
-    forall cs s1 srest, exists s1',
-      drive_chain (k1 :: k2 :: ks) (s1 :: srest) cs =
-      (s1' :: fst (drive_chain (k2 :: ks) srest (outs1 k1 s1 cs)), snd (drive_chain (k2 :: ks) srest (outs1 k1 s1 cs))).
-  Proof.
-    intros k1 k2 ks H. induction cs as [|c r IH]; intros s1 srest.
-    - exists s1. reflexivity.
-    - cbn [Push.drive_chain ProofsPush.outs1].
-      change (Push.push_through keq (k1 :: k2 :: ks) (s1 :: srest) c) with
-        (let '(s', out, cont) := push k1 (hd_st (s1 :: srest)) c in
-         if negb cont || (match out with [] => true | _ => false end) then (s' :: tl (s1 :: srest), [], cont)
-         else let '(ss', o, c') := push_through (k2 :: ks) (tl (s1 :: srest)) (concat out) in (s' :: ss', o, c')).
-      cbn [hd_st tl].
-      destruct (streaming_push keq k1 s1 c H) as [s1' [x E]]. rewrite E.
-      destruct x as [|x0 xt]; cbn [keep negb orb app].
-      + destruct (IH s1' srest) as [s1'' E2]. rewrite E2. eexists. reflexivity.
-      + cbn [concat]. rewrite app_nil_r. cbn [Push.drive_chain].
-        destruct (push_through (k2 :: ks) srest (x0 :: xt)) as [[ss' o] c'] eqn:E2.
-        destruct c'.
-        * destruct (IH s1' ss') as [s1'' E3]. rewrite E3.
-          destruct (drive_chain (k2 :: ks) ss' (outs1 k1 s1' r)) as [ss'' o2]. cbn [fst snd]. eexists. reflexivity.
-        * cbn [fst snd]. eexists. reflexivity.
-  Qed.
-
-  Lemma outs1_stream_concat : forall (k1 : opk), streaming k1 = true -> forall cs,
-    concat (outs1 k1 st0 cs) = spec k1 (concat cs).
-  Proof.
-    intros k1 H cs. rewrite <- (drive_stream keq k1 cs st0 H).
-    pose proof (push_equals_pull_l keq k1 cs) as P. unfold run1 in P.
-    destruct (drive k1 st0 cs) as [s o]. cbn [snd]. rewrite (streaming_finish k1 s H), app_nil_r in P. exact P.
-  Qed.
-
-  Lemma run_chain_stream : forall (k1 k2 : opk) (ks : list opk), streaming k1 = true -> forall cs,
-    run_chain (k1 :: k2 :: ks) cs = run_chain (k2 :: ks) (outs1 k1 st0 cs).
-  Proof.
-    intros k1 k2 ks H cs. unfold Push.run_chain. cbn [init_chain map].
-    destruct (drive_chain_stream k1 k2 ks H cs st0 (st0 :: map (fun _ => st0) ks)) as [s1' E]. rewrite E.
-    destruct (drive_chain (k2 :: ks) (st0 :: map (fun _ => st0) ks) (outs1 k1 st0 cs)) as [ss o]. cbn [fst snd].
-    cbn [Push.finalize_all hd_st tl]. rewrite (streaming_finish k1 s1' H). cbn [push_all app]. reflexivity.
-  Qed.
-
-  (** *** a sort in front of a non-empty rest: nothing flows before finalize_all *)
-  Lemma drive_chain_sort : forall cmp (k2 : opk) (ks : list opk) cs s1 srest,
-    drive_chain (OSort cmp :: k2 :: ks) (s1 :: srest) cs =
-    ({| s_passed := s_passed s1; s_seen := s_seen s1; s_buf := s_buf s1 ++ concat cs |} :: srest, []).
-  Proof.
-    intros cmp k2 ks. induction cs as [|c r IH]; intros s1 srest.
-    - cbn. rewrite app_nil_r. destruct s1; reflexivity.
-    - cbn [Push.drive_chain].
-      change (Push.push_through keq (OSort cmp :: k2 :: ks) (s1 :: srest) c) with
-        (let '(s', out, cont) := push (OSort cmp) (hd_st (s1 :: srest)) c in
-         if negb cont || (match out with [] => true | _ => false end) then (s' :: tl (s1 :: srest), [], cont)
-         else let '(ss', o, c') := push_through (k2 :: ks) (tl (s1 :: srest)) (concat out) in (s' :: ss', o, c')).
-      cbn [Push.push hd_st tl negb orb]. rewrite IH. cbn [s_passed s_seen s_buf concat app].
-      rewrite <- app_assoc. reflexivity.
-  Qed.
-
-  (** pushing at most one chunk: stopping at the first "stop" and ignoring it are the same *)
-  Lemma push_all_keep : forall (ks : list opk) ss (c : list R),
-    push_all keq ks ss (keep c) = drive_chain ks ss (keep c).
-  Proof.
-    intros ks ss [|x t]; [reflexivity|]. cbn [keep push_all Push.drive_chain].
-    destruct (push_through ks ss (x :: t)) as [[ss' o] cont]. destruct cont; rewrite ?app_nil_r; reflexivity.
-  Qed.
-
-  Lemma run_chain_sort : forall cmp (k2 : opk) (ks : list opk) cs,
-    run_chain (OSort cmp :: k2 :: ks) cs = run_chain (k2 :: ks) (keep (isort cmp (concat cs))).
-  Proof.
-    intros cmp k2 ks cs. unfold Push.run_chain. cbn [init_chain map]. rewrite drive_chain_sort.
-    cbn [app Push.finalize_all hd_st tl Push.finish s_buf st0].
-    rewrite push_all_keep.
-    destruct (drive_chain (k2 :: ks) (st0 :: map (fun _ => st0) ks) (keep (isort cmp (concat cs)))) as [ss o].
-    reflexivity.
-  Qed.
-
-  (** *** the theorem: no LIMIT before the last operator *)
-  Theorem chain_no_inner_limit_l : forall (ks : list opk), no_inner_limit ks = true ->
-    forall cs, concat (run_chain ks cs) = chain_spec ks (concat cs).
-  Proof.
-    induction ks as [|k1 ks IH]; intros H cs.
-    - apply run_chain_nil.
+    induction ks as [|k ks IH]; intro cs; unfold total_run.
+    - cbn [Push.finalize_all]. rewrite app_nil_r. apply push_all_nil_chain.
     - destruct ks as [|k2 ks'].
-      + rewrite run_chain_single. apply (push_equals_pull_l keq).
-      + assert (H' : is_limit k1 = false /\ no_inner_limit (k2 :: ks') = true).
-        { change (Push.no_inner_limit (k1 :: k2 :: ks')) with (negb (is_limit k1) && no_inner_limit (k2 :: ks')) in H.
-          apply andb_true_iff in H. destruct H as [H1 H2]. apply negb_true_iff in H1. auto. }
-        destruct H' as [H1 H2].
-        change (chain_spec (k1 :: k2 :: ks') (concat cs)) with (chain_spec (k2 :: ks') (spec k1 (concat cs))).
-        destruct (not_limit_cases k1 H1) as [Hs|[cmp ->]].
-        * rewrite (run_chain_stream k1 k2 ks' Hs). rewrite (IH H2). rewrite (outs1_stream_concat k1 Hs). reflexivity.
-        * rewrite run_chain_sort. rewrite (IH H2). rewrite concat_keep. reflexivity.
+      + cbn [init_chain map]. rewrite push_all_single. cbn [fst snd Push.finalize_all hd_st].
+        apply total_op.
+      + change (init_chain (k :: k2 :: ks')) with (st0 :: init_chain (k2 :: ks')).
+        rewrite push_all_cons. cbn [fst snd].
+        change (finalize_all (k :: k2 :: ks') (st_after k st0 cs :: fst (push_all (k2 :: ks') (init_chain (k2 :: ks')) (outs1 k st0 cs))))
+          with (let '(ss', o) := push_all (k2 :: ks') (fst (push_all (k2 :: ks') (init_chain (k2 :: ks')) (outs1 k st0 cs)))
+                                          (finish k (st_after k st0 cs)) in o ++ finalize_all (k2 :: ks') ss').
+        specialize (IH (outs1 k st0 cs ++ finish k (st_after k st0 cs))). unfold total_run in IH.
+        rewrite push_all_app in IH. cbn [fst snd] in IH.
+        destruct (push_all (k2 :: ks') (fst (push_all (k2 :: ks') (init_chain (k2 :: ks')) (outs1 k st0 cs)))
+                           (finish k (st_after k st0 cs))) as [ss' o].
+        cbn [fst snd] in IH. rewrite <- app_assoc in IH. rewrite IH.
+        change (chain_spec (k :: k2 :: ks') (concat cs)) with (chain_spec (k2 :: ks') (spec k (concat cs))).
+        rewrite total_op. reflexivity.
+  Qed.
+
+  (** *** stopping at the first "stop" loses nothing *)
+  Fixpoint dead (ks : list opk) (ss : list opst) : Prop :=
+    match ks with
+    | [] => False
+    | k :: krest => (match k with OLimit n => n <= s_passed (hd_st ss) | _ => False end) \/ dead krest (tl ss)
+    end.
+
+  Lemma push_false : forall (k : opk) s c s' out, push k s c = (s', out, false) ->
+    match k with OLimit n => n <= s_passed s' | _ => False end.
+  Proof.
+    intros k s c s' out H. destruct k as [p|n|key|cmp|f]; cbn [Push.push] in H; try (inversion H; fail).
+    - destruct (Nat.leb_spec n (s_passed s)) as [Hle|Hlt]; [inversion H; subst; exact Hle|].
+      destruct (Nat.leb_spec (length c) (n - s_passed s)) as [Hc|Hc]; inversion H; subst; cbn [s_passed].
+      + match goal with E : (_ <? _) = false |- _ => apply Nat.ltb_ge in E; exact E end.
+      + lia.
+    - destruct (fresh keq key (s_seen s) c). inversion H.
+  Qed.
+
+  Lemma push_dead : forall (n : nat) (s : opst) (c : list R), n <= s_passed s -> push (OLimit n) s c = (s, [], false).
+  Proof. intros n s c H. cbn [Push.push]. destruct (Nat.leb_spec n (s_passed s)); [reflexivity|lia]. Qed.
+
+  (** a "stop" answer means that some LIMIT of the chain is exhausted *)
+  Lemma push_through_false : forall (ks : list opk) ss c ss' o, push_through ks ss c = (ss', o, false) -> dead ks ss'.
+  Proof.
+    induction ks as [|k ks IH]; intros ss c ss' o H; [cbn in H; inversion H|].
+    cbn [Push.push_through] in H. destruct (push k (hd_st ss) c) as [[s' out] cont] eqn:E.
+    destruct ks as [|k2 ks'].
+    - inversion H; subst. left. cbn [hd_st]. apply (push_false k (hd_st ss) c s' o E).
+    - destruct out as [|o1 ot].
+      + inversion H; subst. left. cbn [hd_st]. apply (push_false k (hd_st ss) c s' [] E).
+      + destruct (push_through (k2 :: ks') (tl ss) (concat (o1 :: ot))) as [[ss2 o2] c2] eqn:E2.
+        inversion H; subst. destruct cont.
+        * cbn [andb] in *. right. cbn [tl]. eapply IH. rewrite E2. match goal with Hc : c2 = false |- _ => rewrite Hc end. reflexivity.
+        * left. cbn [hd_st]. apply (push_false k (hd_st ss) c s' (o1 :: ot) E).
+  Qed.
+
+  Lemma finalize_all_cons : forall (k k2 : opk) (ks : list opk) ss,
+    finalize_all (k :: k2 :: ks) ss =
+    snd (push_all (k2 :: ks) (tl ss) (finish k (hd_st ss)))
+    ++ finalize_all (k2 :: ks) (fst (push_all (k2 :: ks) (tl ss) (finish k (hd_st ss)))).
+  Proof.
+    intros. change (finalize_all (k :: k2 :: ks) ss) with
+      (let '(ss', o) := push_all (k2 :: ks) (tl ss) (finish k (hd_st ss)) in o ++ finalize_all (k2 :: ks) ss').
+    destruct (push_all (k2 :: ks) (tl ss) (finish k (hd_st ss))). reflexivity.
+  Qed.
+
+  (** with an exhausted LIMIT in the chain nothing comes out any more, whatever is pushed, and what
+      finalize_all will emit does not change *)
+  Lemma dead_blocks : forall (ks : list opk) ss, dead ks ss -> forall r,
+    snd (push_all ks ss r) = [] /\ dead ks (fst (push_all ks ss r))
+    /\ finalize_all ks (fst (push_all ks ss r)) = finalize_all ks ss.
+  Proof.
+    induction ks as [|k ks IHks]; intros ss Hd; [destruct Hd|].
+    (* one chunk *)
+    assert (Step : forall ss0, dead (k :: ks) ss0 -> forall c, exists ss' b,
+              push_through (k :: ks) ss0 c = (ss', [], b) /\ dead (k :: ks) ss'
+              /\ finalize_all (k :: ks) ss' = finalize_all (k :: ks) ss0).
+    { intros ss0 Hd0 c. cbn [Push.push_through]. destruct ks as [|k2 ks'].
+      - destruct Hd0 as [Hh|[]]. destruct k as [p|n|key|cmp|f]; try (exfalso; exact Hh).
+        rewrite (push_dead n (hd_st ss0) c Hh). exists [hd_st ss0], false.
+        split; [reflexivity|]. split; [left; exact Hh|reflexivity].
+      - destruct Hd0 as [Hh|Ht].
+        + destruct k as [p|n|key|cmp|f]; try (exfalso; exact Hh).
+          rewrite (push_dead n (hd_st ss0) c Hh). exists (hd_st ss0 :: tl ss0), false.
+          split; [reflexivity|]. split; [left; exact Hh|reflexivity].
+        + destruct (push k (hd_st ss0) c) as [[s' out] cont] eqn:E.
+          destruct out as [|o1 ot].
+          * exists (s' :: tl ss0), cont. split; [reflexivity|]. split; [right; exact Ht|].
+            rewrite !finalize_all_cons. cbn [hd_st tl].
+            destruct (IHks (tl ss0) Ht (finish k s')) as [A1 [_ A3]].
+            destruct (IHks (tl ss0) Ht (finish k (hd_st ss0))) as [B1 [_ B3]].
+            rewrite A1, A3, B1, B3. reflexivity.
+          * destruct (IHks (tl ss0) Ht [concat (o1 :: ot)]) as [A1 [A2 A3]].
+            cbn [Push.push_all] in A1, A2, A3.
+            destruct (push_through (k2 :: ks') (tl ss0) (concat (o1 :: ot))) as [[ss2 o2] c2].
+            cbn [fst snd] in *. rewrite app_nil_r in A1. subst o2.
+            exists (s' :: ss2), (cont && c2). split; [reflexivity|]. split; [right; exact A2|].
+            rewrite !finalize_all_cons. cbn [hd_st tl].
+            destruct (IHks ss2 A2 (finish k s')) as [C1 [_ C3]].
+            destruct (IHks (tl ss0) Ht (finish k (hd_st ss0))) as [B1 [_ B3]].
+            rewrite C1, C3, B1, B3, A3. reflexivity. }
+    intro r. revert ss Hd. induction r as [|c r IHr]; intros ss Hd.
+    - cbn. auto.
+    - cbn [Push.push_all]. destruct (Step ss Hd c) as [ss' [b [E [Hd' F]]]]. rewrite E.
+      destruct (IHr ss' Hd') as [A1 [A2 A3]]. destruct (push_all (k :: ks) ss' r) as [s2 o2]. cbn [fst snd] in *.
+      subst o2. split; [reflexivity|]. split; [exact A2|]. rewrite A3. exact F.
+  Qed.
+
+  Theorem stop_loses_nothing : forall (ks : list opk) cs ss,
+    snd (drive_chain ks ss cs) ++ finalize_all ks (fst (drive_chain ks ss cs)) = total_run ks ss cs.
+  Proof.
+    intros ks. unfold total_run. induction cs as [|c r IH]; intro ss; [reflexivity|].
+    cbn [Push.drive_chain Push.push_all].
+    destruct (push_through ks ss c) as [[ss' o] cont] eqn:E. destruct cont.
+    - specialize (IH ss'). destruct (drive_chain ks ss' r) as [s1 o1]. destruct (push_all ks ss' r) as [s2 o2].
+      cbn [fst snd] in *. rewrite <- !app_assoc. f_equal. exact IH.
+    - pose proof (push_through_false ks ss c ss' o E) as Hd.
+      destruct (dead_blocks ks ss' Hd r) as [A1 [_ A3]].
+      destruct (push_all ks ss' r) as [s2 o2]. cbn [fst snd] in *. subst o2. rewrite app_nil_r, A3. reflexivity.
+  Qed.
+
+  (** *** the theorems *)
+  Theorem run_chain_total : forall (ks : list opk) cs, run_chain ks cs = total_run ks (init_chain ks) cs.
+  Proof.
+    intros ks cs. unfold Push.run_chain. rewrite <- stop_loses_nothing.
+    destruct (drive_chain ks (init_chain ks) cs). reflexivity.
+  Qed.
+
+  Theorem chain_correct_l : forall (ks : list opk) cs, concat (run_chain ks cs) = chain_spec ks (concat cs).
+  Proof. intros ks cs. rewrite run_chain_total. apply total_run_spec. Qed.
+
+  Theorem pipeline_correct_l : forall (ks : list opk) (rows : list R),
+    exists out, pipeline_run keq ks rows = PRows out /\ concat out = chain_spec ks rows.
+  Proof.
+    intros ks rows. unfold pipeline_run. eexists. split; [reflexivity|].
+    rewrite chain_correct_l. rewrite chunks_of_concat by lia. reflexivity.
   Qed.
 End ChainProofs.
